@@ -24,9 +24,10 @@ static TailBuf TB(70000);
 static std::string slurp(const std::string &p) { std::ifstream f(p, std::ios::binary); return std::string((std::istreambuf_iterator<char>(f)), std::istreambuf_iterator<char>()); }
 
 struct CliOut { int status; bool signaled; int sig; std::string out, err; };
-static CliOut run_cli(const Bytes &file) {
-    std::string in = TMPD + "/in.txt", so = TMPD + "/stdout", se = TMPD + "/stderr";
+static CliOut run_cli(const Bytes &file, const Bytes *second = nullptr) {
+    std::string in = TMPD + "/in.txt", in2 = TMPD + "/in2.txt", so = TMPD + "/stdout", se = TMPD + "/stderr";
     { FILE *f = fopen(in.c_str(), "wb"); fwrite(file.data(), 1, file.size(), f); fclose(f); }
+    if (second) { FILE *f = fopen(in2.c_str(), "wb"); fwrite(second->data(), 1, second->size(), f); fclose(f); }
     posix_spawn_file_actions_t fa; posix_spawn_file_actions_init(&fa);
     posix_spawn_file_actions_addopen(&fa, 1, so.c_str(), O_WRONLY | O_CREAT | O_TRUNC, 0644);
     posix_spawn_file_actions_addopen(&fa, 2, se.c_str(), O_WRONLY | O_CREAT | O_TRUNC, 0644);
@@ -35,7 +36,7 @@ static CliOut run_cli(const Bytes &file) {
     for (char **e = environ; *e; e++) { std::string s = *e; if (s.rfind("LD_LIBRARY_PATH=", 0) == 0 || s.rfind("ASAN_OPTIONS=", 0) == 0 || s.rfind("LC_", 0) == 0 || s.rfind("LANG", 0) == 0) continue; envs.push_back(s); }
     envs.push_back("LD_LIBRARY_PATH=" + CLILIB); envs.push_back("ASAN_OPTIONS=detect_leaks=1:exitcode=77:abort_on_error=0:handle_abort=1"); envs.push_back("LANG=C.UTF-8");
     std::vector<char *> envp; for (auto &s : envs) envp.push_back((char *) s.c_str()); envp.push_back(nullptr);
-    char *argv[] = {(char *) CLI.c_str(), (char *) in.c_str(), nullptr};
+    char *argv[] = {(char *) CLI.c_str(), (char *) in.c_str(), second ? (char *) in2.c_str() : nullptr, nullptr};
     pid_t pid; CliOut r{0, false, 0, "", ""};
     if (posix_spawn(&pid, CLI.c_str(), &fa, nullptr, argv, envp.data()) != 0) { r.status = -1; r.err = "spawn failed"; return r; }
     int st = 0; waitpid(pid, &st, 0); posix_spawn_file_actions_destroy(&fa);
@@ -107,6 +108,30 @@ static std::optional<Failure> check_file(Run &R, const Bytes &file) {
     return std::nullopt;
 }
 
+// expected stdout of one file, from the line model and the library (empty optional: the file has a NUL line, not modelled)
+static std::optional<std::string> expected_stdout(Run &R, const Bytes &file, int *np, int *nf) {
+    std::string out; *np = *nf = 0;
+    for (const ModelLine &m : model(file)) {
+        if (m.comment) continue;
+        if (m.has_nul || !ref::utf8_ok(m.trimmed) || has_ctl(m.trimmed)) return std::nullopt;   // echo of such lines is not specified: single-file check covers them
+        v_outcome x = LIB->is_email_tail(TB, m.trimmed); R.eval();
+        if (x.ret == 1) { out += "PASS: " + m.trimmed + "\n"; (*np)++; } else { out += "FAIL: " + m.trimmed + "\n      " + x.errstr + "\n"; (*nf)++; }
+    }
+    return out;
+}
+static std::optional<Failure> check_two_files(Run &R, const Bytes &f1, const Bytes &f2) {
+    Case cs; cs.b("file", f1).b("file2", f2); g_case = cs.str();
+    int p1, n1, p2, n2; auto e1 = expected_stdout(R, f1, &p1, &n1), e2 = expected_stdout(R, f2, &p2, &n2);
+    if (!e1 || !e2) return std::nullopt;
+    CliOut r = run_cli(f1, &f2); R.eval();
+    R.nontrivial(hashs(f1 + "|" + f2)); R.count("two-file-invocations");
+    if (r.signaled || r.status != 0 || r.err.find("Sanitizer") != std::string::npos || r.err.find("runtime error:") != std::string::npos)
+        return Failure{"cli-two-files-crash", g_case, "eav on two files: status " + std::to_string(r.status) + " signal " + std::to_string(r.sig) + "; stderr: " + r.err.substr(0, 400)};
+    if (r.out != *e1 + *e2 && r.out != *e2 + *e1)
+        return Failure{"cli-two-files-output", g_case, "eav FILE1 FILE2: output is not the two per-file outputs one after the other (state carried from one file to the next?): got '" + show(r.out.substr(0, 300)) + "'"};
+    return std::nullopt;
+}
+
 static Bytes gen_line(Src &s) {
     Bytes l;
     switch (s.pick(16)) {
@@ -137,7 +162,9 @@ static void stage_random(Run &R) {
     rc_run(R, "C20 the CLI agrees with the library on generated files", 5.0, [&](Src &s) -> std::optional<Failure> {
         Bytes f = gen_file(s);
         R.sample("file", show(f.substr(0, 160)) + (f.size() > 160 ? "..." : ""), 3);
-        return check_file(R, f);
+        if (auto x = check_file(R, f)) return x;
+        if (s.chance(1, 4)) { Bytes g = gen_file(s); return check_two_files(R, f, g); }
+        return std::nullopt;
     });
 }
 // single-line files for every line shape boundary, and the repository's data files
@@ -154,13 +181,15 @@ static void stage_shapes(Run &R) {
         }
     }
     if (!go(Bytes("a@b.com\n\nc@d.com\n"))) return; if (!go(Bytes("\n\n\n"))) return; if (!go(Bytes("a@b.com\n\0x@y.com\nz@w.com\n", 25))) return;
+    { Bytes a = "a@b.com\nbad@@x\n", b = "\xD0\xB8@\xD0\xBF\xD0\xBE\xD1\x87\xD1\x82\xD0\xB0.\xD1\x80\xD1\x84\r\nlast@no.newline.com", c = "u@" + Bytes(3000, 'a') + ".com\nx@y.org\n", e = "";
+      for (auto &pr : std::vector<std::pair<Bytes, Bytes>>{{a, b}, {b, a}, {c, a}, {a, c}, {e, a}, {a, e}, {c, c}}) { total++; if ((int) (idx++ % R.a.nworkers) != R.a.worker) continue; auto x = check_two_files(R, pr.first, pr.second); if (x && !R.fail(*x)) return; } }
     for (const char *fn : {"pass-email-ascii.txt", "fail-email-ascii.txt", "email-utf8.txt", "email-reg.ru.txt", "localpart-utf8.txt", "domain-length.txt", "email-result-check.txt"}) if (!go(slurp(R.a.datadir + "/" + fn))) return;
     R.space("C20 single-line files: 20 line shapes + lengths around 1024/2048/4096/8192 in 3 fillings, x {LF, CRLF, no final newline}; multi-line empties; the repository's data files", total);
 }
 
 int main(int argc, char **argv) {
     return std_main(argc, argv, "C20", {{"random", stage_random}, {"shapes", stage_shapes}},
-        [](Run &R, const Case &c) { return check_file(R, c.getb("file")); }, [] { return g_case; },
+        [](Run &R, const Case &c) -> std::optional<Failure> { if (c.has("file2")) return check_two_files(R, c.getb("file"), c.getb("file2")); return check_file(R, c.getb("file")); }, [] { return g_case; },
         [](Run &R) {
             for (size_t i = 0; i + 1 < R.a.rest.size(); i++) { if (R.a.rest[i] == "--cli") CLI = R.a.rest[i + 1]; if (R.a.rest[i] == "--clilib") CLILIB = R.a.rest[i + 1]; }
             if (CLI.empty() || !T.load(R.a.datadir)) return false;
